@@ -1134,9 +1134,12 @@ class SQLModel:
                 return [
                     ki
                     for ki, vi in dep_dict.items()
-                    if (len(vi - {ki}) > 0)
-                    or (ki not in vi)
-                    or ((term_dict[ki] is not None) and (term_dict[ki] != ki))
+                    if (ki in term_dict)  # a column selection may have dropped the term
+                    and (
+                        (len(vi - {ki}) > 0)
+                        or (ki not in vi)
+                        or ((term_dict[ki] is not None) and (term_dict[ki] != ki))
+                    )
                 ]
 
             our_non_trivial_terms = non_trivial_terms(
